@@ -12,8 +12,10 @@ import RuxModel.Generated.Facts
     group <gid> <prefix> <hids> <usehids>      group middleware (Group argument, then Use inside the group)
     route <rid> <gid|-> <methods> <pattern> <name> <main> <usecalls>   usecalls: `-` or `h.h/h` (one `/` part per Use)
     notfound <hids> | notallowed <hids>
-    caps <globcap> <routecaps>   capacities of Router.handlers and of every route.handlers (as the harness reads them)
+    caps <len>:<cap> <len>:<cap>,...   length and capacity of Router.handlers and of every route.handlers, as the
+                                 harness reads them from a scratch router (the lengths must be the model's)
     tbl stable <key> <rid> | tbl dyn <key> <rid> <params>    the pure tables, `params` = `-` or `k:v,k:v`
+    tblend <n>                   the tables are complete: n `tbl` lines (a case that lost one is not well formed)
     req <i> <method> <path>
   schedule ops:
     adv <i>     release request i until its next park / its end; answer
@@ -45,6 +47,7 @@ structure ConcState where
   stable : List (Bytes × Nat) := []
   dyn : List (Bytes × CVal) := []
   reqs : List Local := []
+  tblDone : Bool := false
   sh : Option Shared := none
   bad : Bool := false
 
@@ -89,6 +92,14 @@ def parseAct (s : String) : Option Act :=
 
 def parseActs (s : String) : Option (List Act) :=
   if s = "-" then some [] else (s.splitOn ",").mapM parseAct
+
+def parseLenCap (s : String) : Option (Nat × Nat) :=
+  match s.splitOn ":" with
+  | [l, c] =>
+    match l.toNat?, c.toNat? with
+    | some l, some c => some (l, c)
+    | _, _ => none
+  | _ => none
 
 def parseUseCalls (s : String) : Option (List H) :=
   if s = "-" then some []
@@ -168,7 +179,7 @@ def ConcState.shared (s : ConcState) : Shared :=
 
 /-- every id the tables mention exists -/
 def ConcState.wellFormed (s : ConcState) : Bool :=
-  s.stable.all (fun kv => kv.2 < s.routes.length) && s.dyn.all (fun kv => kv.2.1 < s.routes.length) &&
+  s.tblDone && s.stable.all (fun kv => kv.2 < s.routes.length) && s.dyn.all (fun kv => kv.2.1 < s.routes.length) &&
   s.glob.length ≤ max s.globCap s.glob.length
 
 def fuel : Nat := 200000
@@ -226,12 +237,12 @@ def concStep (s : ConcState) : List String → ConcState × String
   | ["notallowed", hids] => setup s fun s => (parseHids hids).map fun hs => { s with noAllowed := hs }
   | ["caps", g, rs] =>
     let r := setup s fun s => do
-      let gc ← g.toNat?
-      let rc ← parseNatList rs
+      let (gl, gc) ← parseLenCap g
+      let rc ← (if rs = "-" then some [] else (rs.splitOn ",").mapM parseLenCap)
       if rc.length ≠ s.routes.length then none
-      if gc < s.glob.length then none
-      if !((s.routes.zip rc).all fun (r, c) => r.mws.length ≤ c) then none
-      pure { s with globCap := gc, routes := (s.routes.zip rc).map fun (r, c) => { r with cap := c } }
+      if gl ≠ s.glob.length || gc < gl then none
+      if !((s.routes.zip rc).all fun (r, lc) => r.mws.length = lc.1 && lc.1 ≤ lc.2) then none
+      pure { s with globCap := gc, routes := (s.routes.zip rc).map fun (r, lc) => { r with cap := lc.2 } }
     (r.1, if r.2 = "ok" then "ok ;; caps-agree" else r.2)
   | ["tbl", "stable", key, rid] =>
     let r := setup s fun s => do
@@ -246,6 +257,11 @@ def concStep (s : ConcState) : List String → ConcState × String
       let ps ← parseParams params
       pure { s with dyn := s.dyn ++ [(k, (r, ps))] }
     (r.1, if r.2 = "ok" then "ok ;; tbl-agree" else r.2)
+  | ["tblend", n] =>
+    setup s fun s => do
+      let k ← n.toNat?
+      if s.stable.length + s.dyn.length ≠ k then none
+      pure { s with tblDone := true }
   | ["req", i, meth, path] =>
     setup s fun s => do
       let n ← i.toNat?
